@@ -146,7 +146,17 @@ def check(ctx: Ctx):
         ok = len(d_) == 1
         if ok:
             v = d_[0].value
-            if isinstance(v, ast.DictComp):
+            if isinstance(v, ast.Dict) and not v.keys:
+                # filled by a loop over the loaded section, keyed by the loop's own key variable
+                tgt_ = norm(d_[0].targets[0])
+                lps_ = [l for l in ast.walk(bh.node) if isinstance(l, ast.For) and norm(l.iter) == "loaded['must_host'].items()" and isinstance(l.target, ast.Tuple)
+                        and any(isinstance(a, ast.Assign) and isinstance(a.targets[0], ast.Subscript) and norm(a.targets[0].value) == tgt_ for a in ast.walk(l))]
+                ok = len(lps_) == 1
+                if ok:
+                    kv, vv = [norm(e) for e in lps_[0].target.elts]
+                    sts_ = [a for a in ast.walk(lps_[0]) if isinstance(a, ast.Assign) and isinstance(a.targets[0], ast.Subscript) and norm(a.targets[0].value) == tgt_]
+                    ok = len(sts_) == 1 and norm(sts_[0].targets[0].slice) == kv and vv in norm(sts_[0].value) and not any(isinstance(x, (ast.If, ast.Continue, ast.Break)) for x in ast.walk(lps_[0]))
+            elif isinstance(v, ast.DictComp):
                 g = v.generators[0]
                 ok = norm(g.iter) in ("loaded['must_host'].items()",) and isinstance(g.target, ast.Tuple) and norm(v.key) == norm(g.target.elts[0]) and not g.ifs and len(v.generators) == 1 \
                     and norm(g.target.elts[1]) in norm(v.value)
